@@ -241,6 +241,9 @@ def race_stress(workdir, cfg, tier, seed):
         ops = json.load(open(os.path.join(workdir, "race.stats"))).get("Ops", 0)
     except Exception:
         pass
+    if "SEMANTIC VIOLATION" in out:
+        i = out.find("SEMANTIC VIOLATION")
+        return False, out[i:i + 1500], ops
     if "DATA RACE" in out or rc == 66:
         i = out.find("WARNING: DATA RACE")
         return False, out[i:i + 3000], ops
@@ -445,7 +448,7 @@ def run_check(pid, tier, seed, replay=None):
             rp = os.path.join("replays", f"{pid}-race-{seed}.json")
             json.dump(dict(property=pid, kind="race", seed=seed, theorem_or_stream="free-running stress under the Go race detector",
                            failing_input_found=True, observed=race_report), open(os.path.join(VERIF, rp), "w"), indent=1)
-            violations.append(("race", "data race / hang in free-running stress: " + race_report.replace("\n", " | ")[:240], None, rp))
+            violations.append(("race", "free-running stress (race detector, semantic checks, termination): " + race_report.replace("\n", " | ")[:240], None, rp))
         if not results and not replay:
             violations.append(("obligation", "correspondence could not be run: " + "; ".join(notes)[:500], None, None))
 
